@@ -155,6 +155,8 @@ def run(ctx):
     rule_separation_sign(ctx, "R09.6")
     # ---- R09.7 the size used for offsets is the size of the box that is placed
     rule_extent_agreement(ctx, "R09.7")
+    # ---- R09.8 a reflection-dependent offset along one axis is decided by the reflection about that axis
+    rule_axis_agreement(ctx, "R09.8")
 
 
 AXIS_OF = {"reflect_horiz": "x", "reflect_vert": "y"}
@@ -310,3 +312,106 @@ def rule_extent_agreement(ctx, rid):
             ctx.ok(rid, f.short, "extent from Outline::xmax / ymax")
     ctx.floor(rid, "extent_accessors", len(sibs), 3)
 
+
+
+def _axis_class(b, o, depth=0):
+    """(root, parity): the axis operand `o` as a root local/parameter path with the number of `Dir::other` applications
+    modulo 2; None when it cannot be traced"""
+    from analysis.mir import op_place, op_local
+    o = b.resolve_copy(o)
+    pl = op_place(o)
+    if pl is None or depth > 8:
+        return None
+    l = pl["l"]
+    if not pl["p"]:
+        c = b.def_call(o)
+        if c is not None:
+            if re.search(r"Dir::other$|::other$", callee_name(c) or "") and c["args"]:
+                r = _axis_class(b, c["args"][0], depth + 1)
+                return (r[0], 1 - r[1]) if r else None
+            return None
+    return ("%s%s" % (b.local_name(l) or "_%d" % l, "".join("." + str(e.get("n", e.get("f"))) for e in pl["p"] if isinstance(e, dict) and ("f" in e))), 0)
+
+
+def _reflected_in_slice(b, operand, max_nodes=300):
+    """axis classes of the `reflected(axis)` calls in the backward slice of `operand` (through copies, negations, flags
+    assigned on several paths)"""
+    from analysis.mir import op_place
+    out, seen, work = set(), set(), []
+    p = op_place(operand)
+    if p is not None:
+        work.append(p["l"])
+    n = 0
+    while work and n < max_nodes:
+        l = work.pop()
+        n += 1
+        if l in seen or 1 <= l <= b.argc:
+            continue
+        seen.add(l)
+        for d in b.defs.get(l, []):
+            if d[2] == "assign":
+                rv = d[3]["rv"]
+                for key in ("o", "l", "r"):
+                    if key in rv and isinstance(rv[key], dict):
+                        q = op_place(rv[key])
+                        if q is not None:
+                            work.append(q["l"])
+                if rv["k"] in ("ref", "rawptr", "discr", "len"):
+                    work.append(rv["p"]["l"])
+                if rv["k"] == "agg":
+                    for o in rv["ops"]:
+                        q = op_place(o)
+                        if q is not None:
+                            work.append(q["l"])
+            elif d[2] == "call":
+                nm = callee_name(d[3]) or ""
+                if re.search(r"::reflected$", nm) and len(d[3]["args"]) > 1:
+                    out.add(_axis_class(b, d[3]["args"][1]) or ("?", 0))
+                    continue
+                for o in d[3]["args"]:
+                    q = op_place(o)
+                    if q is not None:
+                        work.append(q["l"])
+    return out
+
+
+def rule_axis_agreement(ctx, rid):
+    """Whether the placed instance's extent along an axis is added to / subtracted from a coordinate is a question about
+    that axis: a test that guards the use of `size[A]` (and not the use of the other axis' size as well) may consult the
+    instance's reflection about A only.  Axes are compared as (root, parity of `Dir::other`)."""
+    from analysis import ctrl
+    from analysis.mir import op_place
+    ctx.rule(rid, "in the relative-placement arithmetic, every test that guards the use of the instance's extent along one axis only consults `reflected(..)` for that same axis")
+    F = ctx.F
+    n = 0
+    for f in F.fns.values():
+        if not f.id.startswith("layout21tetris::placer::") or f.kind == "Closure" or not any("RelativePlace" in i.get("s", "") for i in f.inputs):
+            continue
+        b = Body(f)
+        uses = []   # (block, axis class)
+        for bi, t in b.calls():
+            nm = callee_name(t) or ""
+            if re.search(r"ops::Index<.*Dir>>::index$|Index<.*Dir>.*::index$", nm) and len(t["args"]) > 1:
+                ac = _axis_class(b, t["args"][1])
+                if ac is not None:
+                    uses.append((bi, ac))
+        if not uses:
+            continue
+        guards = {bi: ctrl.controlling_switches(b, bi) for bi, _ in uses}
+        for bi, ac in uses:
+            others = [bj for bj, aj in uses if aj != ac]
+            for sw in sorted(guards[bi]):
+                refl = _reflected_in_slice(b, b.term(sw)["on"])
+                if not refl:
+                    continue
+                n += 1
+                key = "%s/size[%s^%d]/guard:%s" % (f.short, ac[0], ac[1], ",".join(sorted("%s^%d" % r for r in refl)))
+                if any(sw in guards[bj] for bj in others):
+                    ctx.ok(rid, key + "/shared", "guard shared by both axes")
+                    continue
+                bad = [r for r in refl if r != ac]
+                if bad:
+                    ctx.violation(rid, key, "%s: the use of the instance's extent along axis %s^%d is guarded by a test computed from reflected(%s): the offset along one axis then depends on the reflection about the other, so for an instance reflected about exactly one axis it is not flush with / not touching its reference" % (f.short, ac[0], ac[1], ", ".join("%s^%d" % r for r in bad)), b.site(sw), key)
+                else:
+                    ctx.ok(rid, key, "same axis")
+    ctx.floor(rid, "axis_guards", n, 4)
